@@ -182,14 +182,14 @@ def run(ctx):
                 jobs.append("%s %s %d %d" % (w, r.choice("st"), k, v0 | 1))
             # two independent single faults: the second one hits clean-up / retry code after the first
             for gap in ((1, 2, 3, 5, 8, 13, 21) if ctx.tier == "thorough" else (r.choice((1, 2, 3, 5, 8, 13, 21)),)):
-                if ctx.tier == "thorough" or r.random() < (0.5 if not v0 else 0.2):
+                if ctx.tier == "thorough" or r.random() < (0.3 if not v0 else 0.12):
                     jobs.append("%s s %d %d %d" % (w, k, v0, k + gap))
             # a program that ignores the failure and goes on (write workloads only: their calls need no results of
             # earlier calls other than ids, which the library must reject when they are invalid)
             if w in WRITE_WL:
                 if ctx.tier == "thorough":
                     jobs += ["%s %s %d %d" % (w, m, k, v0 | 4 | b) for m in "st" for b in (0, 1)]
-                elif r.random() < 0.5:
+                elif r.random() < 0.3:
                     jobs.append("%s %s %d %d" % (w, r.choice("st"), k, v0 | 4 | r.choice((0, 1))))
     out = run_jobs(ctx, exe, jobs, "main")
     ver = judge_lines(ctx, mod, out, "main")
